@@ -109,7 +109,52 @@ def liveness_sweep(ctx, pid):
         finally:
             shutil.rmtree(tmp, ignore_errors=True)
     ctx.note("liveness sweep: %d rows applied, %d skipped: %s" % (done, len(skipped), skipped))
-    return {"liveness_rows": done, "liveness_skipped": skipped}
+    seeds = seed_sweep(ctx, pid)
+    return {"liveness_rows": done, "liveness_skipped": skipped, "seeded_changes": seeds}
+
+
+def seed_sweep(ctx, pid):
+    """Thorough tier: the independently seeded breaking changes kept for this property (seeded/<id>/patch.diff) are applied one at a time
+    to a scratch copy of /repo's current tree; the check must report each one that it is recorded to catch.  A patch that no longer
+    applies is skipped and listed; a seed recorded as not caught (value-level) is listed, never counted as a pass."""
+    import json
+    import shutil
+    import subprocess
+    import tempfile
+    ctx.rule("seeds", "every seeded change recorded as caught (seeded/*/meta.json) is reported again on a scratch copy with the patch applied")
+    out = {"applied": [], "skipped": [], "recorded_misses": []}
+    sdir = os.path.join(core.VERIF, "seeded")
+    for d in sorted(os.listdir(sdir)):
+        mp = os.path.join(sdir, d, "meta.json")
+        if not os.path.exists(mp):
+            continue
+        meta = json.load(open(mp))
+        if meta.get("property") != pid:
+            continue
+        if not (meta.get("detected_by") or {}).get("own_check"):
+            out["recorded_misses"].append(d)
+            continue
+        tmp = tempfile.mkdtemp(prefix="mtsa-seed-")
+        try:
+            for f in ("src", "benches", "tests", "Cargo.toml", "Cargo.lock"):
+                s_ = os.path.join(core.REPO, f)
+                if os.path.exists(s_):
+                    (shutil.copytree if os.path.isdir(s_) else shutil.copy)(s_, os.path.join(tmp, f))
+            subprocess.run(["git", "init", "-q"], cwd=tmp)
+            r = subprocess.run(["git", "apply", os.path.join(sdir, d, "patch.diff")], cwd=tmp, capture_output=True, text=True)
+            if r.returncode != 0:
+                out["skipped"].append(d)
+                continue
+            env = dict(os.environ, MTSA_REPO=tmp, MTSA_EVIDENCE_DIR=os.path.join(tmp, "evidence"))
+            rr = subprocess.run([os.path.join(core.VERIF, "bin/check"), pid, "--tier", "quick"], capture_output=True, text=True, env=env)
+            fired = [l.strip() for l in rr.stdout.splitlines() if l.strip().startswith("violation rule=")]
+            out["applied"].append(d)
+            ctx.ob("seeds", "seeded change %s (%s) is reported" % (d, meta.get("needs_to_manifest", "")[:80]), rr.returncode == 1 and bool(fired), "seeded/" + d,
+                   "seed-not-reported:" + d, detail="exit %d" % rr.returncode)
+        finally:
+            shutil.rmtree(tmp, ignore_errors=True)
+    ctx.note("seed sweep: %s" % out)
+    return out
 
 
 def main():
